@@ -131,3 +131,27 @@ Proof. vm_compute. reflexivity. Qed.
 (* an empty script is not recognised *)
 Theorem empty_script_verdict n : eval_btc n [] = (BNotRecognised, None).
 Proof. reflexivity. Qed.
+
+(* ---------- "otherwise unrecognised with no address": only the seven address-bearing types ever carry an address ---------- *)
+Theorem address_only_for_address_types n l a : snd (eval_btc n l) = Some a ->
+  In (fst (eval_btc n l)) [BP2PK; BP2PKH; BP2SH; BP2WPKH; BP2WSH; BP2TR; BWitnessProgram].
+Proof.
+  unfold eval_btc. destruct l as [|c r]; [discriminate|].
+  destruct (N.eq_dec c 0x6a) as [->|Hne]; [discriminate|].
+  assert (E : forall A (x y:A), match c with 0x6a => x | _ => y end = y).
+  { intros A x y. destruct c as [|p]; [reflexivity|]. repeat (destruct p as [p|p|]; try reflexivity). exfalso; apply Hne; reflexivity. }
+  rewrite !E. destruct (return_or_illegal c); [discriminate|].
+  destruct (p2pk_key (c :: r)); [intros _; cbn; tauto|].
+  destruct (is_p2pkh (c :: r)) eqn:Ekh; [intros _; cbn; tauto|].
+  destruct (is_p2sh (c :: r)) eqn:Esh; [intros _; cbn; tauto|].
+  destruct (is_p2wpkh (c :: r)); [intros _; cbn; tauto|].
+  destruct (is_p2wsh (c :: r)); [intros _; cbn; tauto|].
+  destruct (is_p2tr (c :: r)); [intros _; cbn; tauto|].
+  destruct (witness_version (c :: r)) eqn:Ew; [intros _; cbn; tauto|].
+  unfold address_from_script. rewrite Ekh, Esh, Ew. destruct (is_multisig (c :: r)); discriminate.
+Qed.
+Corollary not_recognised_has_no_address n l : fst (eval_btc n l) = BNotRecognised -> snd (eval_btc n l) = None.
+Proof.
+  intro H. destruct (snd (eval_btc n l)) as [a|] eqn:E; [|reflexivity]. pose proof (address_only_for_address_types n l a E) as Hin. rewrite H in Hin. cbn in Hin.
+  repeat (destruct Hin as [Hin|Hin]; [discriminate|]). contradiction.
+Qed.
